@@ -115,7 +115,7 @@ func famVerify(g *Gen, tier string, shard, nshards int) {
 		nStates, perState, maxLeaves = 40, 1500, 500
 	}
 	for st := 0; st < nStates; st++ {
-		s := newSim(g, rowConfigs[g.Intn(len(rowConfigs))])
+		s := newSim(g, pickRows(g))
 		s.applyBlock(nil, 1+g.Intn(maxLeaves))
 		for b := 0; b < g.Intn(4); b++ {
 			s.applyBlock(s.pickDeletions(1+g.Intn(7)), g.Intn(5))
